@@ -16,13 +16,23 @@ func skWord(w ast.Word) string {
 	}
 	var b strings.Builder
 	b.WriteString("[")
-	for i, p := range w {
+	for i := 0; i < len(w); i++ {
 		if i > 0 {
 			b.WriteString(",")
 		}
-		switch p := p.(type) {
+		switch p := w[i].(type) {
 		case *ast.Lit:
-			b.WriteString("L" + hx(p.Value))
+			// adjacent literals denote the same text as one literal
+			v := p.Value
+			for i+1 < len(w) {
+				n, ok := w[i+1].(*ast.Lit)
+				if !ok {
+					break
+				}
+				v += n.Value
+				i++
+			}
+			b.WriteString("L" + hx(v))
 		case *ast.Quote:
 			b.WriteString("Q" + hx(p.Tok) + skWord(p.Value))
 		case *ast.ParamExp:
@@ -71,12 +81,34 @@ func skRedirs(rs []*ast.Redir) string {
 	return "(" + strings.Join(s, ";") + ")"
 }
 
+// skCmds flattens a command sequence into its and-or lists: "a; b" on one line (one ast.List)
+// and "a" newline "b" (two commands) are the same program.
 func skCmds(cs []ast.Command) string {
 	var s []string
 	for _, c := range cs {
-		s = append(s, skCommand(c))
+		s = append(s, skAndOrs(c)...)
 	}
 	return "(" + strings.Join(s, ";") + ")"
+}
+
+func skAndOrs(c ast.Command) []string {
+	switch c := c.(type) {
+	case ast.List:
+		var s []string
+		for _, a := range c {
+			s = append(s, skAndOr(a))
+		}
+		return s
+	case *ast.AndOrList:
+		return []string{skAndOr(c)}
+	case *ast.Pipeline:
+		return []string{skAndOr(&ast.AndOrList{Pipeline: c})}
+	case *ast.Cmd:
+		return []string{skAndOr(&ast.AndOrList{Pipeline: &ast.Pipeline{Cmd: c}})}
+	case nil:
+		return []string{"nil"}
+	}
+	return []string{fmt.Sprintf("?%T", c)}
 }
 
 // sepNorm: ";" and newline (empty) are the same separator
@@ -88,23 +120,7 @@ func sepNorm(s string) string {
 }
 
 func skCommand(c ast.Command) string {
-	switch c := c.(type) {
-	case ast.List:
-		var s []string
-		for _, a := range c {
-			s = append(s, skAndOr(a))
-		}
-		return "list(" + strings.Join(s, ";") + ")"
-	case *ast.AndOrList:
-		return "list(" + skAndOr(c) + ")"
-	case *ast.Pipeline:
-		return "list(" + skAndOr(&ast.AndOrList{Pipeline: c}) + ")"
-	case *ast.Cmd:
-		return "list(" + skAndOr(&ast.AndOrList{Pipeline: &ast.Pipeline{Cmd: c}}) + ")"
-	case nil:
-		return "nil"
-	}
-	return fmt.Sprintf("?%T", c)
+	return "list(" + strings.Join(skAndOrs(c), ";") + ")"
 }
 
 func skAndOr(a *ast.AndOrList) string {
